@@ -36,6 +36,10 @@
 (*               the following instruction).                               *)
 (*   always      a frame never ends between a lone DD/FD prefix and the    *)
 (*               opcode it precedes (PrefixNop steps of Z80.tla).          *)
+(*   snapshots   after the first one are "same" (the state reached anyway),*)
+(*               "needed" (the run is discontinuous there) or "stale";     *)
+(*               playback flag 4 = ignore them must be clear for "needed"  *)
+(*               and set for "stale" (SnapshotUseMatches).                 *)
 (***************************************************************************)
 EXTENDS RzxProtocol
 
